@@ -5,7 +5,6 @@ import (
 	"encoding/hex"
 	"encoding/json"
 	"strings"
-
 )
 
 // Required record- and union-typed fields are embedded by value in the generated structs and are
